@@ -256,6 +256,7 @@ func runCase(r *evid.Run, s shape) {
 	}
 	// fields sharing a name must agree on a value shape: give json/bin/failing fields unique names
 	used := map[string]string{}
+	failingShared := map[string]fieldSpec{}
 	for i := range s.Fields {
 		f := &s.Fields[i]
 		if !f.Tagged || f.BadShape {
@@ -265,13 +266,31 @@ func runCase(r *evid.Run, s shape) {
 			continue
 		}
 		plain := f.Kind == "bytes" || f.Kind == "string" || f.Kind == "secret"
-		if prev, ok := used[f.Tag]; ok && !(plain && prev == "plain") {
+		// plain fields can share a secret with each other, and with ONE failing field (whose value every
+		// plain field can still take): a failure on one field must not keep the others from being filled
+		prev, seen := used[f.Tag]
+		switch {
+		case !seen:
+		case plain && (prev == "plain" || prev == "failing+plain"):
+		case plain && prev == "failing":
+			used[f.Tag] = "failing+plain"
+		case f.Failing && prev == "plain":
+			used[f.Tag] = "failing+plain"
+			failingShared[f.Tag] = *f
+		default:
 			f.Tag = fmt.Sprintf("%s-%d", f.Tag, i)
+			seen = false
 		}
-		if plain {
-			used[f.Tag] = "plain"
-		} else {
-			used[f.Tag] = f.Kind
+		if !seen {
+			switch {
+			case plain:
+				used[f.Tag] = "plain"
+			case f.Failing:
+				used[f.Tag] = "failing"
+				failingShared[f.Tag] = *f
+			default:
+				used[f.Tag] = f.Kind
+			}
 		}
 	}
 	if anyBad || true {
@@ -298,6 +317,9 @@ func runCase(r *evid.Run, s shape) {
 		}
 	}
 	nTagged := 0
+	for tag, ff := range failingShared {
+		setVal(path.Join(s.Prefix, tag), ff) // the failing field decides the bytes of a shared secret
+	}
 	for _, f := range s.Fields {
 		if f.Tagged && !f.BadShape {
 			nTagged++
